@@ -98,7 +98,7 @@ type callExpect struct {
 	arityOK  bool
 	mustFail bool
 	mayFail  bool
-	anyArg   []bool    // per parameter: value not asserted
+	anyArg   []bool     // per parameter: value not asserted
 	accept   [][]m16.GV // acceptable recordings (each: one GV per parameter)
 	altArg   map[int][]m16.GV
 	known    []string
